@@ -93,6 +93,7 @@ class Closure:
         a = node.args
         self.param_names = [x.arg for x in a.posonlyargs + a.args]
         self._locals = None
+        self._default_values = {}
 
     def local_names(self):
         """names bound anywhere in the body (Python scoping: these are locals)"""
@@ -131,12 +132,19 @@ class Closure:
                 raise AbstractRaise(TypeError(f"{self.name}() got an unexpected keyword argument {k!r}"))
         if a.kwarg is not None:
             env.set(a.kwarg.arg, extra)
+        # Python evaluates default values ONCE, when the function is defined: the same object is handed to every call (a
+        # mutable default that is written to is state shared between calls). They are evaluated on first use here and cached.
+        dv = self._default_values
         for n, dnode in zip(names[len(names) - len(defaults):], defaults):
             if n not in env.local:
-                env.set(n, it.ev(dnode, self.env))
+                if n not in dv:
+                    dv[n] = it.ev(dnode, self.env)
+                env.set(n, dv[n])
         for n, dnode in zip(kwonly, a.kw_defaults):
             if n not in env.local and dnode is not None:
-                env.set(n, it.ev(dnode, self.env))
+                if n not in dv:
+                    dv[n] = it.ev(dnode, self.env)
+                env.set(n, dv[n])
         for n in names + kwonly:
             if n not in env.local:
                 raise AbstractRaise(TypeError(f"{self.name}() missing required argument {n!r}"))
